@@ -206,6 +206,26 @@ Theorem c12_nonempty_set_is_kept {V} (re_valid : str -> bool) dflt (rs : list (s
 Proof. exact (mix_len_pos re_valid dflt rs s v ty pat). Qed.
 Print Assumptions c12_nonempty_set_is_kept.
 
+(** ** sets assembled from several members ([sets:] of domain_set, [$tag] of the qname matcher) *)
+
+(** A group of member matchers, each loaded from its own rule list, matches a
+    name iff some rule of some member describes it (the union of the rules). *)
+Theorem c12_group_iff {V} (re_valid : str -> bool) (re_match : str -> str -> bool)
+        dflt (rss : list (list (str * V))) n :
+  group_matches re_match (map (fun rs => fst (mix_add_all re_valid dflt rs empty_mix)) rss) n = true <->
+  exists rs s v, In rs rss /\ In (s, v) rs /\ describes re_valid re_match dflt s n.
+Proof. exact (group_iff re_valid re_match dflt rss n). Qed.
+Print Assumptions c12_group_iff.
+
+(** What a domain_set hands out: its own matcher (when Len() > 0) and every member
+    of every referenced set; nesting is flattened, every member counts. *)
+Theorem c12_set_of_sets {V} (re_match : str -> str -> bool) (own : @mix V) (refs : list (list (@mix V))) n :
+  group_matches re_match (set_members own refs) n =
+  (negb (mix_len own =? 0) && group_matches re_match [own] n)
+  || existsb (fun g => group_matches re_match g n) refs.
+Proof. exact (set_members_matches re_match own refs n). Qed.
+Print Assumptions c12_set_of_sets.
+
 (** ** text files: one rule per line, '#' comments, surrounding white space, blank lines *)
 
 Theorem c12_loader_lines {V} (re_valid : str -> bool) (parse : @parse_fn V) dflt text (m : mix) :
